@@ -115,7 +115,38 @@ fn replica_apply(req: &Value) -> Value {
            "violates": (r.is_ok() && !matches) || (r.is_err() && applied) || (matches && r.is_ok() && (!applied || chain.height() != 1))})
 }
 
+/// B4: a commit that is refused at the append (its proposer is no longer a registered validator) after another workspace
+/// committed: chain and store must be as they were before the refused commit.
+fn commit_refused(_req: &Value) -> Value {
+    use tensor_chain::{ChainConfig, TensorChain};
+    let tc = TensorChain::with_config(tensor_store::TensorStore::new(), ChainConfig::new("node1").with_auto_merge(false));
+    if let Err(e) = tc.initialize() { return json!({"error": e.to_string()}); }
+    let put = |k: &str, b: u8| Transaction::Put { key: k.to_string(), data: vec![b] };
+    let setup = tc.begin().unwrap();
+    let _ = setup.add_operation(put("setup", 0));
+    if let Err(e) = tc.commit(&setup) { return json!({"error": format!("setup commit: {e}")}); }
+    let wa = tc.begin().unwrap();
+    let _ = wa.add_operation(put("key_a", 0xA));
+    let wb = tc.begin().unwrap();
+    let _ = wb.add_operation(put("key_b", 0xB));
+    let rb = tc.commit(&wb);
+    let me = tc.node_id().clone();
+    let _ = tc.validator_registry().remove(&me);
+    let ra = tc.commit(&wa);
+    tc.register_validator(tc.identity());
+    let mut bad: Vec<String> = vec![];
+    if rb.is_ok() && !tc.store().exists("key_b") { bad.push("the refused commit wiped the committed write of the other workspace".into()); }
+    if rb.is_ok() && !matches!(tc.get_block(2), Ok(Some(_))) { bad.push("the other workspace's block is gone".into()); }
+    if ra.is_err() && tc.store().exists("key_a") { bad.push("the refused commit left its write in the store".into()); }
+    if !tc.store().exists("setup") { bad.push("the setup write is gone".into()); }
+    if let Err(e) = tc.verify() { bad.push(format!("verify: {e}")); }
+    json!({"other_commit": rb.map(|_| "Ok").map_err(|e| e.to_string()), "refused_commit": ra.map(|_| "Ok").map_err(|e| e.to_string()), "height": tc.height(), "problems": bad, "violates": !bad.is_empty()})
+}
+
 pub fn handle(op: &str, req: &Value) -> Option<Value> {
+    if op == "chain_commit_refused" {
+        return Some(commit_refused(req));
+    }
     if op == "chain_replica_apply" {
         return Some(replica_apply(req));
     }
